@@ -463,21 +463,13 @@ def worker(case):
         warnings.simplefilter("ignore")
         np.seterr(all="ignore")
         k = case[0]
-        if k == "wf":
-            return check_wf(case[1])
-        if k == "whist":
-            return check_whist(case[1], tuple(case[2]))
-        if k == "maxval":
-            return check_maxval(*case[1:])
-        if k == "maxval-boundary":
-            return check_maxval_boundary(*case[1:])
-        if k == "pulse":
-            return check_pulse(*case[1:])
-        if k == "pulse-bad":
-            return check_pulse_bad(case[1])
-        if k == "arbphase":
-            return check_arbphase(case[1])
-    return []
+        fn = {"wf": lambda: check_wf(case[1]), "whist": lambda: check_whist(case[1], tuple(case[2])), "maxval": lambda: check_maxval(*case[1:]),
+              "maxval-boundary": lambda: check_maxval_boundary(*case[1:]), "pulse": lambda: check_pulse(*case[1:]),
+              "pulse-bad": lambda: check_pulse_bad(case[1]), "arbphase": lambda: check_arbphase(case[1])}.get(k)
+        if fn is None:
+            return []  # unknown kind: reported by the vacuity guard of gridx.run
+        r = fn()
+        return r if r else [("@" + k, "")]
 
 
 def run(tier, seed):
